@@ -1,6 +1,6 @@
 (* C14  Dump output is well-formed and self-consistent.
    Statements only; every proof is `exact <lemma>`. *)
-From CV Require Import Base.Bytes Ctu.Defs Dump.Defs Dump.XmlProofs Dump.LinksProofs Dump.AstProofs Dump.ResolveProofs.
+From CV Require Import Base.Bytes Ctu.Defs Dump.Defs Dump.XmlProofs Dump.LinksProofs Dump.AstProofs Dump.ResolveProofs Dump.ValidatorProofs Dump.Links2Proofs.
 Local Open Scope N_scope.
 
 (* Tokenizer::createLinks, for every token sequence: when it does not report an unmatched
@@ -85,7 +85,43 @@ Theorem C14_check_doc_refs_sound d :
 Proof. exact (check_doc_refs_sound d). Qed.
 Print Assumptions C14_check_doc_refs_sound.
 
+(* the stack core of Tokenizer::createLinks2 (the Token::Match heuristics abstracted as the event the
+   loop body performs, so every outcome of them is covered): the '<' '>' pairs it links and the
+   bracket pairs it walks over are opening-before-closing, of one kind, and pairwise disjoint or nested *)
+Theorem C14_links2_nested es st :
+  create_links2 es = S2Cont st ->
+  let E := fun p => nth (N.to_nat p) es E2Other in
+  (forall o c b, In (o, c, b) (l2_pairs st) ->
+     o < c /\ c < N.of_nat (length es) /\
+     (if b then E o = E2Lt /\ E c = E2Gt true true else E o = E2Open /\ E c = E2Close)) /\
+  pairs_ok (map pr (l2_pairs st)) /\
+  ForallOrdPairs nested_or_disjoint (map pr (l2_pairs st)).
+Proof. exact (links2_nested es st). Qed.
+Print Assumptions C14_links2_nested.
+
+(* the validator run over real dumps, AST and link part: acceptance implies, for every token of the
+   document, that its astParent has it as an operand, its operands have it as parent and differ,
+   its parent chain ends, and its link is symmetric and not a fixed point (attr_val = the value
+   of the attribute in the document) *)
+Theorem C14_check_doc_ast_links_sound d :
+  check_doc d = VOk ->
+  forall x, In x (token_ids d) ->
+    (forall p, attr_val d A_PARENT x = Some p -> attr_val d A_OP1 p = Some x \/ attr_val d A_OP2 p = Some x) /\
+    (forall c, attr_val d A_OP1 x = Some c -> attr_val d A_PARENT c = Some x /\ attr_val d A_OP2 x <> Some c) /\
+    (forall c, attr_val d A_OP2 x = Some c -> attr_val d A_PARENT c = Some x) /\
+    (exists k, par_iter d (S k) x = None) /\
+    (forall y, attr_val d A_LINK x = Some y -> attr_val d A_LINK y = Some x /\ y <> x).
+Proof. exact (check_doc_ast_links_sound d). Qed.
+Print Assumptions C14_check_doc_ast_links_sound.
+
 (* non-vacuity *)
+Example C14_links2_ok :
+  exists st, create_links2 [E2Lt; E2Open; E2Lt; E2Gt true true; E2Close; E2Gt true true] = S2Cont st /\
+             l2_pairs st = [(0, 5, true); (1, 4, false); (2, 3, true)].
+Proof. eexists. split; vm_compute; reflexivity. Qed.
+Example C14_links2_candidate_dropped :   (* a < b ; c > d : the ';' discards the candidate *)
+  exists st, create_links2 [E2Other; E2Lt; E2Other; E2Drop; E2Other; E2Gt true true] = S2Cont st /\ l2_pairs st = [].
+Proof. eexists. split; vm_compute; reflexivity. Qed.
 Example C14_links_ok : create_links_chars [123; 40; 91; 93; 41; 125] = LOk [(0, 5); (1, 4); (2, 3)].
 Proof. vm_compute. reflexivity. Qed.
 Example C14_links_cross_kind : create_links_chars [40; 91; 41; 93] = LUnmatched 1.   (* ( [ ) ] *)
